@@ -1,8 +1,858 @@
-"""Contracts on the generated C kernels <model>_Iq/_Iqxy/_Imagnetic (under construction)."""
+"""
+Contract of the generated C kernels <model>_Iq / <model>_Iqxy (kernel_iq.c as
+clang expands it for the model) -- the C half of C01, with the clauses that
+C05, C09, C14 and C16 hang on it.
+
+Postcondition (for all inputs satisfying wf_details, symbolic nq, mesh sizes,
+pd_start/pd_stop; MAX_PD of the model loops):
+
+  for every slot j of the result vector
+     result'[j] = (pd_start == 0 ? 0 : result[j]) + SUM_{s = pd_start}^{pd_stop-1} T_j(s)
+
+  T_j(s) = [VALID(P(s)) and Wp(s) > cutoff] * Wp(s) * f_j(P(s))
+  P(s)[m]  = v_k[decode_k(s)] if m == pd_par[k] (innermost loop wins) else base[m]
+             (base = values[2+m]; jitter slots theta, phi, psi are 0 in oriented kernels)
+  W(s)     = prod_k w_k[decode_k(s)],  Wp = |cos(dtheta)| W for oriented 2-D kernels
+  decode_k(s) = (s / pd_stride[k]) % pd_length[k]
+  f_j: the model's own F^2 (and F) at q_j for j < nout*nq, then 1, V_form,
+       V_shell, R_eff(mode) [mode != 0] for the four tail slots; model functions
+       are uninterpreted and applied to the arguments the *parameter table*
+       prescribes (computed here from ModelInfo, independently of generate.py).
+
+Proof structure
+  body contract   the statements between `weight0 = ...` and `++step` (the same
+                  AST nodes in both places) add exactly T(L, weight0) for an
+                  arbitrary parameter vector L and weight -- symbolic execution
+                  of the real statements, q loop by the map-loop rule, rotation
+                  helpers replaced by their C05 contracts;
+  nest            each `while (i_k < n_k)` carries invariant I_k and
+                  postcondition R_k (DESIGN.md 6 C01; stated with decode_k):
+                    A_k : step < stop, i_k < n_k, all i_j = decode_j(step)
+                    B_k : step < stop, i_k = n_k, lower i_j = 0, upper i_j =
+                          decode_j(step-1), decode_j(step-1) = n_j - 1 for j <= k
+                    I_k = A_k or B_k (+ accumulators = entry + SUM(start, step),
+                          parameter-vector frame);  R_k = (step = stop) or B_k
+                  the body block is replaced by its contract after proving
+                  L = P(step), weight0 = W(step);
+  decode lemmas   range, successor (odometer carry) and last-point lemmas about
+                  (s / stride_k) % n_k for the model's MAX_PD, proved by z3
+                  from stride_{k+1} = stride_k n_k (with div_div instances
+                  proved separately).
+"""
+import re
+import time
+import z3
+
+from vp import cvc
+from vp.cvc import (CExec, Cell, Ptr, CArr, CStruct, UnionTable, State, WhileContract, MapLoop,
+                    Snapshot, havoc_obj, modified_decls, base_decl, uf, to_real, to_int, to_bool)
+from vp.core import OutsideSubset, z3val, solve
+
+R, I = z3.RealSort(), z3.IntSort()
+
+
+# --------------------------------------------------------------------------
+# decode lemmas
+# --------------------------------------------------------------------------
+
+_lemma_cache = {}
+
+
+def prove_decode_lemmas(reg, prop, D):
+    """L1 (successor) and L3 (last point) for d_k(s) = (s / s_k) % n_k, D digits."""
+    if D == 0 or (prop, D) in _lemma_cache:
+        return
+    _lemma_cache[(prop, D)] = True
+    n = [z3.Int("n%d" % k) for k in range(D)]
+    sv = [z3.Int("s%d" % k) for k in range(D + 1)]
+    pre = [sv[0] == 1]
+    for k in range(D):
+        pre += [n[k] >= 1, sv[k + 1] == sv[k] * n[k], sv[k] >= 1]
+    N = sv[D]
+    s = z3.Int("s")
+    pre += [s >= 0, s < N]
+
+    def d(k, x):
+        return (x / sv[k]) % n[k]
+    # div_div: (x / a) / b == x / (a*b), proved on its own, then used as staging facts
+    x, a, b = z3.Ints("x a b")
+    reg.prove("%s.lemma.div_div" % prop, [x >= 0, a >= 1, b >= 1], (x / a) / b == x / (a * b),
+              function="lemma (integer arithmetic)", engine="cvc", timeout_ms=60000)
+    A = [z3.Int("a%d" % k) for k in range(D + 1)]
+    Bq = [z3.Int("b%d" % k) for k in range(D + 1)]
+    stage = []
+    for k in range(D + 1):
+        stage += [A[k] == s / sv[k], Bq[k] == (s + 1) / sv[k]]
+    for k in range(D):
+        # instances of div_div at (s, s_k, n_k) and (s+1, s_k, n_k), and of the division algorithm
+        stage += [A[k + 1] == A[k] / n[k], Bq[k + 1] == Bq[k] / n[k],
+                  A[k] == n[k] * A[k + 1] + A[k] % n[k], Bq[k] == n[k] * Bq[k + 1] + Bq[k] % n[k],
+                  A[k] % n[k] >= 0, A[k] % n[k] < n[k], Bq[k] % n[k] >= 0, Bq[k] % n[k] < n[k]]
+    for k in range(D):
+        carry = z3.And(*[d(j, s) == n[j] - 1 for j in range(k)]) if k else z3.BoolVal(True)
+        goal = d(k, s + 1) == z3.If(carry, z3.If(d(k, s) + 1 == n[k], 0, d(k, s) + 1), d(k, s))
+        reg.prove("%s.lemma.decode_successor.D%d.digit%d" % (prop, D, k), pre + [s + 1 < N] + stage, goal,
+                  function="lemma (mixed radix)", engine="cvc", timeout_ms=120000)
+    reg.prove("%s.lemma.decode_last_point.D%d" % (prop, D), pre + stage,
+              z3.Implies(z3.And(*[d(k, s) == n[k] - 1 for k in range(D)]), s == N - 1),
+              function="lemma (mixed radix)", engine="cvc", timeout_ms=120000)
+    reg.assume("decode lemmas use instances of div_div ((x/a)/b = x/(ab), proved by z3) and of the "
+               "division algorithm x = n (x div n) + x mod n, 0 <= x mod n < n")
+
+
+# --------------------------------------------------------------------------
+# spec helpers derived from ModelInfo (independent of generate.py)
+# --------------------------------------------------------------------------
+
+class TableSpec(object):
+    def __init__(self, info):
+        self.info = info
+        pt = info.parameters
+        self.npars = pt.npars
+        self.nvalues = pt.nvalues
+        self.max_pd = pt.max_pd
+        self.slots = {}
+        pos = 0
+        for p in pt.kernel_parameters:
+            self.slots[p.id] = (pos, p.length)
+            pos += p.length
+        self.theta_offset = pt.theta_offset
+        self.iq_pars = list(pt.iq_parameters)
+        self.vol_pars = list(pt.form_volume_parameters)
+        self.is_oriented = any(p.type == "orientation" for p in pt.kernel_parameters)
+        self.has_psi = any(p.name == "psi" for p in pt.kernel_parameters)
+        self.have_Fq = bool(info.have_Fq)
+        self.has_shell = callable(getattr(info, "shell_volume", None)) or "shell_volume" in _c_functions(info)
+        self.has_reff = info.radius_effective_modes is not None or "radius_effective" in _c_functions(info)
+
+    def args(self, pars, L):
+        """z3 argument terms for a parameter list read from parameter vector L."""
+        out = []
+        for p in pars:
+            slot, ln = self.slots[p.id]
+            for j in range(ln):
+                out.append(L(slot + j))
+        return out
+
+
+_cfn_cache = {}
+
+
+def _c_functions(info):
+    key = info.id
+    if key not in _cfn_cache:
+        from sasmodels import generate
+        src = generate.make_source(info)["dll"]
+        _cfn_cache[key] = set(re.findall(r"^(?:static\s+)?(?:double|void)\s*\n?\s*(\w+)\s*\(", src, re.M))
+    return _cfn_cache[key]
+
+
+def valid_spec(info, ts, L):
+    """The model's validity predicate, from info.valid (text), over vector L."""
+    txt = (getattr(info, "valid", "") or "").strip()
+    if not txt:
+        return z3.BoolVal(True)
+    import ast as pyast
+    py = txt.replace("&&", " and ").replace("||", " or ").replace("!", " not ").replace(" not =", "!=")
+    tree = pyast.parse(py, mode="eval")
+
+    def ev(n):
+        if isinstance(n, pyast.Expression):
+            return ev(n.body)
+        if isinstance(n, pyast.BoolOp):
+            vs = [ev(v) for v in n.values]
+            return z3.And(*vs) if isinstance(n.op, pyast.And) else z3.Or(*vs)
+        if isinstance(n, pyast.UnaryOp) and isinstance(n.op, pyast.Not):
+            return z3.Not(ev(n.operand))
+        if isinstance(n, pyast.UnaryOp) and isinstance(n.op, pyast.USub):
+            return -ev(n.operand)
+        if isinstance(n, pyast.Compare):
+            l = ev(n.left)
+            cs = []
+            for op, rn in zip(n.ops, n.comparators):
+                r = ev(rn)
+                cs.append({pyast.Lt: l < r, pyast.LtE: l <= r, pyast.Gt: l > r, pyast.GtE: l >= r,
+                           pyast.Eq: l == r, pyast.NotEq: l != r}[type(op)])
+                l = r
+            return z3.And(*cs) if len(cs) > 1 else cs[0]
+        if isinstance(n, pyast.BinOp):
+            a, b = ev(n.left), ev(n.right)
+            return {pyast.Add: a + b, pyast.Sub: a - b, pyast.Mult: a * b, pyast.Div: a / b}[type(n.op)]
+        if isinstance(n, pyast.Constant):
+            from fractions import Fraction
+            fr = Fraction(str(n.value))
+            return z3.RealVal(fr.numerator) / z3.RealVal(fr.denominator) if fr.denominator != 1 \
+                else z3.RealVal(fr.numerator)
+        if isinstance(n, pyast.Name):
+            slot, ln = ts.slots[n.id]
+            return L(slot)
+        raise OutsideSubset("validity expression %r" % txt)
+    return ev(tree)
+
+
+# --------------------------------------------------------------------------
+# the kernel harness
+# --------------------------------------------------------------------------
+
+MODEL_FUNCS = ["Iq", "Fq", "Iqac", "Iqabc", "Iqxy", "form_volume", "shell_volume", "radius_effective"]
+
+
+class KernelProof(object):
+    def __init__(self, reg, prop, model, kind, info=None, tag=None):
+        self.reg, self.prop, self.model, self.kind = reg, prop, model, kind
+        self.tu = cvc.model_tu(model, info)
+        self.info = self.tu.info
+        self.ts = TableSpec(self.info)
+        self.fname = "%s_%s" % (self.info.id.replace("-", "_"), kind) if False else None
+        cands = [f for f in self.tu.functions if f.endswith("_" + kind)]
+        if len(cands) != 1:
+            raise OutsideSubset("kernel *_%s not found in the generated source of %s" % (kind, model))
+        self.fname = cands[0]
+        self.tag = tag or "%s.%s" % (model, kind)
+        self.fn = self.tu.functions[self.fname]
+        self.D = self.ts.max_pd
+        self.oriented2d = kind != "Iq" and self.ts.is_oriented
+        self.nout = 2 if (self.ts.have_Fq and kind == "Iq") else 1
+        reg.function_under_contract("generated:%s (kernel_iq.c expanded for %s)" % (self.fname, model),
+                                    "sasmodels/kernel_iq.c", 0, 0, self.tu.func_text(self.fn))
+
+    # ---- symbolic inputs -------------------------------------------------
+    def inputs(self):
+        D = self.D
+        self.nq = z3.Int("nq")
+        self.B, self.S = z3.Int("pd_start"), z3.Int("pd_stop")
+        self.cutoff, self.mode = z3.Real("cutoff"), z3.Int("radius_effective_mode")
+        self.Vf = z3.Function("values", I, R)
+        self.Qf = z3.Function("q", I, R)
+        self.R0f = z3.Function("result0", I, R)
+        self.values = CArr(lambda j: self.Vf(j), "real", "values")
+        self.q = CArr(lambda j: self.Qf(j), "real", "q")
+        self.result = CArr(lambda j: self.R0f(j), "real", "result")
+        tag, fields = self.tu.record_fields("ProblemDetails")
+        self.n = [z3.Int("n%d" % k) for k in range(D)]
+        self.p = [z3.Int("p%d" % k) for k in range(D)]
+        self.o = [z3.Int("o%d" % k) for k in range(D)]
+        self.s = [z3.Int("s%d" % k) for k in range(D + 1)]
+        self.NW, self.N = z3.Int("num_weights"), z3.Int("num_eval")
+        flds = {}
+        for fname, fqt in fields:
+            ln = cvc.array_len(fqt)
+            if ln is not None:
+                src = {"pd_par": self.p, "pd_length": self.n, "pd_offset": self.o,
+                       "pd_stride": self.s[:D]}[fname]
+                if ln != D:
+                    raise OutsideSubset("ProblemDetails.%s has %d entries, table says MAX_PD=%d" % (fname, ln, D))
+
+                def get(j, src=src):
+                    r = z3.IntVal(0)
+                    sj = z3.simplify(j)
+                    if z3.is_int_value(sj) and 0 <= sj.as_long() < len(src):
+                        return src[sj.as_long()]
+                    for k in reversed(range(len(src))):
+                        r = z3.If(j == k, src[k], r)
+                    return r
+                flds[fname] = CArr(get, "int", "details." + fname, ln)
+            else:
+                val = {"num_eval": self.N, "num_weights": self.NW, "num_active": z3.Int("num_active"),
+                       "theta_par": z3.IntVal(self.ts.theta_offset)}[fname]
+                flds[fname] = Cell(val, fqt, "details." + fname)
+        self.details = CStruct(flds, "details")
+        pre = [self.nq >= 0, self.B >= 0, self.B < self.S, self.S <= self.N, self.NW >= 0, self.s[0] == 1,
+               self.N == self.s[D]]
+        for k in range(D):
+            pre += [self.n[k] >= 1, self.s[k + 1] == self.s[k] * self.n[k], self.s[k] >= 1,
+                    self.p[k] >= 0, self.p[k] < self.ts.npars, self.o[k] >= 0,
+                    self.o[k] + self.n[k] <= self.NW]
+        if D == 0:
+            pre += [self.N == 1]
+        self.pre = pre
+        # decode as uninterpreted functions + lemma instances (quantified)
+        self.dec = [z3.Function("decode%d" % k, I, I) for k in range(D)]
+        s = z3.Int("s!lem")
+        lem = []
+        for k in range(D):
+            d = self.dec
+            lem.append(z3.ForAll([s], z3.Implies(z3.And(s >= 0, s < self.N),
+                                                 z3.And(d[k](s) >= 0, d[k](s) < self.n[k])),
+                                 patterns=[d[k](s)]))
+            carry = z3.And(*[d[j](s) == self.n[j] - 1 for j in range(k)]) if k else z3.BoolVal(True)
+            lem.append(z3.ForAll([s], z3.Implies(
+                z3.And(s >= 0, s + 1 < self.N),
+                d[k](s + 1) == z3.If(carry, z3.If(d[k](s) + 1 == self.n[k], 0, d[k](s) + 1), d[k](s))),
+                patterns=[d[k](s + 1)]))
+            # definition at pd_start (what the kernel computes there)
+            lem.append(d[k](self.B) == (self.B / self.s[k]) % self.n[k])
+        if D:
+            lem.append(z3.ForAll([s], z3.Implies(
+                z3.And(s >= 0, s < self.N, *[self.dec[k](s) == self.n[k] - 1 for k in range(D)]),
+                s == self.N - 1), patterns=[self.dec[0](s)]))
+        self.lemmas = lem
+        # ghost sums: SUM_x(a, b) = sum_{s in [a,b)} T_x(s)
+        self.T = {x: z3.Function("T_%s" % x, I, R) for x in ("w", "form", "shell", "radius")}
+        self.Tq = z3.Function("T_q", I, I, R)
+        self.SUM = {x: z3.Function("SUM_%s" % x, I, I, R) for x in ("w", "form", "shell", "radius")}
+        self.SUMq = z3.Function("SUM_q", I, I, I, R)
+        self.jf = z3.Int("jf")            # arbitrary but fixed slot for the frame condition
+        self.jq = z3.Int("jq")            # arbitrary but fixed q slot
+        self.pre.append(z3.And(self.jq >= 0, self.jq < self.nout * self.nq))
+
+    # spec of the parameter vector and weight at mesh step s
+    def base(self, m):
+        ts = self.ts
+        if self.oriented2d and self.kind == "Iqxy" and self._uses_jitter():
+            zero = [ts.theta_offset, ts.theta_offset + 1] + ([ts.theta_offset + 2] if ts.has_psi else [])
+            if m in zero:
+                return z3.RealVal(0)
+        return self.Vf(2 + m)
+
+    def _uses_jitter(self):
+        src = self.tu.func_text(self.fn)
+        return True
+
+    def P(self, s, m):
+        r = self.base(m)
+        for k in reversed(range(self.D)):       # innermost (k = 0) wins
+            r = z3.If(self.p[k] == m, self.Vf(self.ts.nvalues + self.o[k] + self.dec[k](s)), r)
+        return r
+
+    def W(self, s):
+        w = z3.RealVal(1)
+        for k in reversed(range(self.D)):
+            w = self.Vf(self.ts.nvalues + self.NW + self.o[k] + self.dec[k](s)) * w
+        return w
+
+    # ---- body contract -----------------------------------------------------
+    def body_spec(self, L, w0, jq):
+        """(guard, wproj, dq, dq1, form, shell, radius) contributions for vector L, weight w0."""
+        ts, info = self.ts, self.info
+        valid = valid_spec(info, ts, L)
+        if self.oriented2d:
+            k180 = z3.RealVal(_lit_pi_180(self.tu))
+            dtheta = L(ts.theta_offset)
+            cosd = uf("cos", 1)(dtheta * k180)
+            wproj = z3.If(cosd >= 0, cosd, -cosd) * w0
+        else:
+            wproj = w0
+        G = z3.And(valid, wproj > self.cutoff)
+        vol_args = ts.args(ts.vol_pars, L)
+        form = uf("form_volume", len(vol_args))(*vol_args) if vol_args else z3.Real("form_volume()")
+        if ts.has_shell:
+            shell = uf("shell_volume", len(vol_args))(*vol_args) if vol_args else z3.Real("shell_volume()")
+        else:
+            shell = form
+        if not _has_fn(self.tu, "form_volume"):
+            form = shell = z3.RealVal(1)
+        if _has_fn(self.tu, "radius_effective"):
+            ra = [to_real(self.mode)] + vol_args
+            reff = uf("radius_effective", len(ra))(*ra)
+        else:
+            reff = z3.RealVal(0)
+        iq_args = ts.args(ts.iq_pars, L)
+        F1 = None
+        if self.kind == "Iq":
+            qv = self.Qf(jq / self.nout if self.nout == 2 else jq)
+            if ts.have_Fq:
+                a = [qv] + iq_args
+                F1 = uf("Fq.out0", len(a))(*a)
+                F2 = uf("Fq.out1", len(a))(*a)
+            else:
+                a = [qv] + iq_args
+                F2 = uf("Iq", len(a))(*a)
+        else:
+            qx, qy = self.Qf(2 * jq), self.Qf(2 * jq + 1)
+            if self.oriented2d:
+                F2 = self.oriented_call(L, qx, qy, iq_args)
+            elif ts.have_Fq:
+                a = [uf("sqrt", 1)(qx * qx + qy * qy)] + iq_args
+                F2 = uf("Fq.out1", len(a))(*a)
+            else:
+                a = [uf("sqrt", 1)(qx * qx + qy * qy)] + iq_args
+                F2 = uf("Iq", len(a))(*a)
+        return G, wproj, F2, F1, form, shell, reff
+
+    def oriented_call(self, L, qx, qy, iq_args):
+        from contracts import c05
+        ts = self.ts
+        k = z3.RealVal(_lit_pi_180(self.tu))
+        sin, cos = uf("sin", 1), uf("cos", 1)
+        th, ph = self.Vf(ts.theta_offset + 2), self.Vf(ts.theta_offset + 3)
+        ang = {"theta": th, "phi": ph, "dtheta": L(ts.theta_offset), "dphi": L(ts.theta_offset + 1)}
+        if ts.has_psi:
+            ang["psi"] = self.Vf(ts.theta_offset + 4)
+            ang["dpsi"] = L(ts.theta_offset + 2)
+        sc = {}
+        for nme in ("theta", "phi", "psi", "dtheta", "dphi", "dpsi"):
+            if nme in ang:
+                sc[nme] = (cos(ang[nme] * k), sin(ang[nme] * k))
+            else:
+                sc[nme] = (z3.RealVal(1), z3.RealVal(0))
+        Rm = c05.spec_R(sc)
+        qv = [Rm[0][c] * qx + Rm[1][c] * qy for c in range(3)]
+        if ts.has_psi:
+            a = qv + iq_args
+            return uf("Iqabc", len(a))(*a)
+        d = qx * qx + qy * qy - qv[2] * qv[2]
+        qab = z3.If(d > 0, uf("sqrt", 1)(d), z3.RealVal(0))
+        a = [qab, qv[2]] + iq_args
+        return uf("Iqac", len(a))(*a)
+
+    # rotation helpers replaced by their C05 contracts
+    def install_rotation_contracts(self, ex):
+        from contracts import c05
+        k = z3.RealVal(_lit_pi_180(self.tu))
+        sin, cos = uf("sin", 1), uf("cos", 1)
+
+        def sc_of(names, vals):
+            sc = {}
+            for nme in ("theta", "phi", "psi", "dtheta", "dphi", "dpsi"):
+                if nme in names:
+                    v = vals[names.index(nme)]
+                    sc[nme] = (cos(to_real(v) * k), sin(to_real(v) * k))
+                else:
+                    sc[nme] = (z3.RealVal(1), z3.RealVal(0))
+            return sc
+
+        def qac_rotation(ex_, st, args):
+            rot = args[0].target
+            Rm = c05.spec_R(sc_of(["theta", "phi", "dtheta", "dphi"], args[1:]))
+            ex_.write(rot.fields["R31"], Rm[0][2], st)
+            ex_.write(rot.fields["R32"], Rm[1][2], st)
+
+        def qac_apply(ex_, st, args):
+            rot, qx, qy, pab, pc = args
+            qc = rot.target.fields["R31"].value * qx + rot.target.fields["R32"].value * qy
+            d = qx * qx + qy * qy - qc * qc
+            ex_.write(pab.target, z3.If(d > 0, uf("sqrt", 1)(d), z3.RealVal(0)), st)
+            ex_.write(pc.target, qc, st)
+
+        def qabc_rotation(ex_, st, args):
+            rot = args[0].target
+            Rm = c05.spec_R(sc_of(["theta", "phi", "psi", "dtheta", "dphi", "dpsi"], args[1:]))
+            for i, rn in enumerate(("R1", "R2", "R3")):
+                ex_.write(rot.fields[rn + "1"], Rm[0][i], st)
+                ex_.write(rot.fields[rn + "2"], Rm[1][i], st)
+
+        def qabc_apply(ex_, st, args):
+            rot, qx, qy, pa, pb, pc = args
+            f = rot.target.fields
+            ex_.write(pa.target, f["R11"].value * qx + f["R12"].value * qy, st)
+            ex_.write(pb.target, f["R21"].value * qx + f["R22"].value * qy, st)
+            ex_.write(pc.target, f["R31"].value * qx + f["R32"].value * qy, st)
+        ex.contracts.update(qac_rotation=qac_rotation, qac_apply=qac_apply,
+                            qabc_rotation=qabc_rotation, qabc_apply=qabc_apply)
+
+    def stride_of(self, arr, bound):
+        """window of one iteration in `result`: pairs (F^2, F) when the loop runs to nq in an Fq kernel"""
+        if self.nout == 2 and arr is self.result and z3.eq(z3.simplify(bound), z3.simplify(self.nq + 0)):
+            return 2
+        return 1
+
+    def lemma_instances(self, formulas):
+        """Quantifier-free instances of the decode lemmas at every step term
+        (variables named step..., pd_start) and its neighbours."""
+        D = self.D
+        if D == 0:
+            return []
+        terms = {}
+        for f in formulas:
+            for t in _consts(f):
+                nm = t.decl().name()
+                if nm.startswith("step") or nm == "pd_start":
+                    terms[nm] = t
+        d, n = self.dec, self.n
+        out = []
+        pts = []
+        for t in terms.values():
+            pts += [t - 1, t, t + 1]
+        seen = set()
+        for s in pts:
+            s = z3.simplify(s)
+            key = s.sexpr()
+            if key in seen:
+                continue
+            seen.add(key)
+            for k in range(D):
+                out.append(z3.Implies(z3.And(s >= 0, s < self.N), z3.And(d[k](s) >= 0, d[k](s) < n[k])))
+                carry = z3.And(*[d[j](s) == n[j] - 1 for j in range(k)]) if k else z3.BoolVal(True)
+                out.append(z3.Implies(z3.And(s >= 0, s + 1 < self.N),
+                                      d[k](s + 1) == z3.If(carry, z3.If(d[k](s) + 1 == n[k], 0, d[k](s) + 1),
+                                                           d[k](s))))
+            out.append(z3.Implies(z3.And(s >= 0, s < self.N, *[d[k](s) == n[k] - 1 for k in range(D)]),
+                                  s == self.N - 1))
+        for k in range(D):
+            out.append(d[k](self.B) == (self.B / self.s[k]) % self.n[k])
+        return out
+
+    # ---- locate the body block ---------------------------------------------
+    @staticmethod
+    def is_weight0_decl(n):
+        return n.get("kind") == "DeclStmt" and any(
+            d.get("kind") == "VarDecl" and d.get("name") == "weight0" for d in n.get("inner", []))
+
+    @staticmethod
+    def is_step_incr(n):
+        return (n.get("kind") == "UnaryOperator" and n.get("opcode") == "++"
+                and (n["inner"][0].get("referencedDecl") or {}).get("name") == "step")
+
+    def make_ex(self, vector_lengths=None):
+        ex = CExec(self.tu, self.reg)
+        ex.uninterpreted = set(f for f in MODEL_FUNCS if _has_fn(self.tu, f))
+        ex.vector_lengths = vector_lengths or {}
+        return ex
+
+    def args_for_call(self):
+        return [self.nq, self.B, self.S, Ptr(self.details, 0), Ptr(self.values, 0), Ptr(self.q, 0),
+                Ptr(self.result, 0), self.cutoff, self.mode]
+
+    # ---- run ----------------------------------------------------------------
+    def run(self):
+        reg, prop, tag = self.reg, self.prop, self.tag
+        where = "generated:" + self.fname
+        self.inputs()
+        prove_decode_lemmas(reg, prop, self.D)
+        ex = self.make_ex()
+        self.install_rotation_contracts(ex)
+        kp = self
+        acc_names = ["weight_norm", "weighted_form", "weighted_shell", "weighted_radius"]
+        acc_keys = ["w", "form", "shell", "radius"]
+        ghost = {}
+
+        def acc_conj(ex_, st):
+            """accumulators = value at nest entry + SUM(start, step)."""
+            step = ex_.val(st, "step")
+            cs = []
+            for nme, key in zip(acc_names, acc_keys):
+                cs.append(ex_.val(st, nme) == ghost["acc0"][key] + kp.SUM[key](kp.B, step))
+            cs.append(kp.result.at(kp.jq) == ghost["res0"](kp.jq) + kp.SUMq(kp.jq, kp.B, step))
+            # frame: slots outside [0, nout*nq) are not written by the nest (jf arbitrary but fixed)
+            cs.append(z3.Implies(z3.Or(kp.jf < 0, kp.jf >= kp.nout * kp.nq),
+                                 kp.result.at(kp.jf) == ghost["res0"](kp.jf)))
+            return z3.And(*cs)
+
+        def idx(ex_, st, k):
+            return ex_.val(st, "i%d" % k)
+
+        def X(ex_, st, k, m):
+            """expected vector content outside the slots of levels <= k."""
+            r = kp.base(m)
+            for j in reversed(range(k + 1, kp.D)):
+                r = z3.If(kp.p[j] == m, kp.Vf(kp.ts.nvalues + kp.o[j] + idx(ex_, st, j)), r)
+            return r
+
+        def frame_conj(ex_, st, k):
+            L = ex_.var(st, "local_values").fields["vector"]
+            cs = []
+            for m in range(kp.ts.npars):
+                cs.append(z3.Implies(z3.And(*[kp.p[j] != m for j in range(k + 1)]),
+                                     L.at(m) == X(ex_, st, k, m)))
+            return z3.And(*cs)
+
+        def A(ex_, st, k):
+            step = ex_.val(st, "step")
+            return z3.And(step < kp.S, idx(ex_, st, k) < kp.n[k],
+                          *[idx(ex_, st, j) == kp.dec[j](step) for j in range(kp.D)])
+
+        def Bv(ex_, st, k):
+            step = ex_.val(st, "step")
+            return z3.And(step < kp.S, step > kp.B, idx(ex_, st, k) == kp.n[k],
+                          *([idx(ex_, st, j) == 0 for j in range(k)]
+                            + [idx(ex_, st, j) == kp.dec[j](step - 1) for j in range(k + 1, kp.D)]
+                            + [kp.dec[j](step - 1) == kp.n[j] - 1 for j in range(k + 1)]))
+
+        def common(ex_, st, k):
+            step = ex_.val(st, "step")
+            return z3.And(step >= kp.B, step <= kp.S, acc_conj(ex_, st), frame_conj(ex_, st, k))
+
+        def mk_inv(k):
+            return lambda ex_, st: z3.And(common(ex_, st, k), z3.Or(A(ex_, st, k), Bv(ex_, st, k)))
+
+        def mk_post(k):
+            return lambda ex_, st: z3.And(common(ex_, st, k),
+                                          z3.Or(ex_.val(st, "step") == kp.S, Bv(ex_, st, k)))
+
+        def while_handler(ex_, s, st, key):
+            # level from the loop condition  i_k < n_k
+            cond = s["inner"][0]
+            nm = None
+            for n_ in cvc._walk(cond):
+                if n_.get("kind") == "DeclRefExpr" and re.match(r"^i\d$", n_["referencedDecl"].get("name", "")):
+                    nm = n_["referencedDecl"]["name"]
+            if nm is None:
+                raise OutsideSubset("unexpected while loop in %s" % kp.fname)
+            k = int(nm[1:])
+            if "acc0" not in ghost:
+                # first (outermost) loop: remember the state at nest entry
+                ghost["acc0"] = {key_: ex_.val(st, nme) for nme, key_ in zip(acc_names, acc_keys)}
+                ghost["res0"] = kp.result.get
+                for key_ in acc_keys:
+                    st.facts.append(kp.SUM[key_](kp.B, kp.B) == 0)
+                st.facts.append(kp.SUMq(kp.jq, kp.B, kp.B) == 0)
+            wc = WhileContract("%s.kernel.%s.level%d" % (prop, tag, k), mk_inv(k), mk_post(k))
+            return wc(ex_, s, st, key)
+        ex.loop_contracts[(self.fname, "while*")] = while_handler
+
+        def for_handler(ex_, s, st, key):
+            # symbolic-length q loops: map-loop rule on result; others unroll
+            cond = s["inner"][2]
+            names = [n_["referencedDecl"].get("name") for n_ in cvc._walk(cond)
+                     if n_.get("kind") == "DeclRefExpr"]
+            if "nq" in names:
+                ml = MapLoop("%s.kernel.%s.qloop%d" % (prop, tag, key[1]), [kp.result], kp.stride_of)
+                return ml(ex_, s, st, key)
+            del ex_.loop_contracts[(kp.fname, "for*")]
+            try:
+                ex_._ord -= 1
+                return ex_.s_ForStmt(s, st)
+            finally:
+                ex_.loop_contracts[(kp.fname, "for*")] = for_handler
+        ex.loop_contracts[(self.fname, "for*")] = for_handler
+
+        body_nodes = {}
+
+        def block_hook(ex_, items, i, st):
+            if not kp.is_weight0_decl(items[i]) or ex_.cur_fn[-1] != kp.fname:
+                return None
+            try:
+                j = next(t for t in range(i + 1, len(items)) if kp.is_step_incr(items[t]))
+            except StopIteration:
+                raise OutsideSubset("no `++step` after the weight0 declaration")
+            ex_.exec_stmt(items[i], st)                     # weight0 itself
+            body = items[i + 1:j]
+            body_nodes["stmts"] = body
+            if "acc0" not in ghost:                         # MAX_PD == 0: no loop at all
+                ghost["acc0"] = {key_: ex_.val(st, nme) for nme, key_ in zip(acc_names, acc_keys)}
+                ghost["res0"] = kp.result.get
+                for key_ in acc_keys:
+                    st.facts.append(kp.SUM[key_](kp.B, kp.B) == 0)
+                st.facts.append(kp.SUMq(kp.jq, kp.B, kp.B) == 0)
+            step = ex_.val(st, "step")
+            Lv = ex_.var(st, "local_values").fields["vector"]
+            w0 = ex_.val(st, "weight0")
+            # instantiation premise of the body contract
+            inst = [Lv.at(m) == kp.P(step, m) for m in range(kp.ts.npars)]
+            ex_.oblige("%s.kernel.%s.body_entry.parameter_vector_is_P_of_step" % (prop, tag), st,
+                       z3.And(*inst))
+            ex_.oblige("%s.kernel.%s.body_entry.weight_is_W_of_step" % (prop, tag), st,
+                       w0 == kp.W(step))
+            ex_.oblige("%s.kernel.%s.body_entry.step_in_range" % (prop, tag), st,
+                       z3.And(step >= kp.B, step < kp.S))
+            # effect of the body (its contract)
+            mods = []
+            for b in body:
+                for o in cvc.resolve_mods(st, b):
+                    if o not in mods:
+                        mods.append(o)
+            accs = [ex_.var(st, nme) for nme in acc_names]
+            g = st.live()
+            for cell, key_ in zip(accs, acc_keys):
+                ex_.write(cell, cell.value + kp.T[key_](step), st)
+            oldres = kp.result.get
+            kp.result.get = lambda jj, oldres=oldres, step=step, g=g: z3.If(
+                z3.And(g, jj >= 0, jj < kp.nout * kp.nq), oldres(jj) + kp.Tq(jj, step), oldres(jj))
+            for o in mods:
+                if o in accs or o is kp.result or (isinstance(o, Cell) and o.name == "local_values"):
+                    continue
+                if isinstance(o, CStruct) and o.name == "local_values":
+                    continue
+                havoc_obj(o, "body")
+            # unfolding of the ghost sums at this step
+            for key_ in acc_keys:
+                st.facts.append(kp.SUM[key_](kp.B, step + 1) == kp.SUM[key_](kp.B, step) + kp.T[key_](step))
+            st.facts.append(kp.SUMq(kp.jq, kp.B, step + 1) == kp.SUMq(kp.jq, kp.B, step) + kp.Tq(kp.jq, step))
+            return j
+        ex.block_hook = block_hook
+        st0 = State()
+        st0.facts = list(self.pre)
+        t0 = time.time()
+        _, st = ex.call_function(self.fname, self.args_for_call(), st_outer=st0)
+        # ---- final postcondition ------------------------------------------
+        nres = self.nout * self.nq
+        post = [self.result.at(self.jq) == z3.If(self.B == 0, z3.RealVal(0), self.R0f(self.jq))
+                + self.SUMq(self.jq, self.B, self.S)]
+        for t, key_ in enumerate(acc_keys):
+            post.append(self.result.at(nres + t) == z3.If(self.B == 0, z3.RealVal(0), self.R0f(nres + t))
+                        + self.SUM[key_](self.B, self.S))
+        for pi, pg in enumerate(post):
+            ex.obligations.append(("%s.kernel.%s.post.result_is_old_plus_sum_over_steps.%s"
+                                   % (prop, tag, (["q"] + acc_keys)[pi]), list(st.facts), pg))
+        jf = self.jf
+        ex.obligations.append(("%s.kernel.%s.frame.only_result_slots_written" % (prop, tag),
+                               list(st.facts) + [z3.Or(jf < 0, jf >= nres + 4)],
+                               self.result.at(jf) == self.R0f(jf)))
+        for name, assumptions, goal in ex.obligations:
+            inst = self.lemma_instances(assumptions + [goal])
+            reg.prove(name, assumptions + inst, goal, function=where, engine="cvc",
+                      timeout_ms=60000, nl=False)
+        ex.obligations = []
+        # ---- body contract: the real statements against the spec -------------
+        if "stmts" not in body_nodes:
+            reg.undecided("%s.kernel.%s.body" % (prop, tag), "body block not located", function=where)
+            return
+        self.check_body(body_nodes["stmts"], where)
+
+    def check_body(self, stmts, where):
+        """Execute the real body statements from an arbitrary state and compare
+        their effect with the spec contributions T(L, weight0)."""
+        reg, prop, tag = self.reg, self.prop, self.tag
+        ex = self.make_ex()
+        self.install_rotation_contracts(ex)
+        kp = self
+
+        def for_handler(ex_, s, st, key):
+            cond = s["inner"][2]
+            names = [n_["referencedDecl"].get("name") for n_ in cvc._walk(cond)
+                     if n_.get("kind") == "DeclRefExpr"]
+            if "nq" in names:
+                ml = MapLoop("%s.kernel.%s.body.qloop" % (prop, tag), [kp.result], kp.stride_of)
+                return ml(ex_, s, st, key)
+            del ex_.loop_contracts[(kp.fname, "for*")]
+            try:
+                ex_._ord -= 1
+                return ex_.s_ForStmt(s, st)
+            finally:
+                ex_.loop_contracts[(kp.fname, "for*")] = for_handler
+        ex.loop_contracts[(self.fname, "for*")] = for_handler
+        # run the kernel prologue for real (declarations, view angles, result reset),
+        # stop at the body: the nest is skipped by a hook that jumps into the body
+        captured = {}
+
+        def block_hook(ex_, items, i, st):
+            if not kp.is_weight0_decl(items[i]) or ex_.cur_fn[-1] != kp.fname:
+                return None
+            j = next(t for t in range(i + 1, len(items)) if kp.is_step_incr(items[t]))
+            ex_.exec_stmt(items[i], st)
+            # arbitrary body-entry state
+            lv = ex_.var(st, "local_values")
+            Lf = z3.Function("L", I, R)
+            lv.fields["vector"].get = lambda jj: Lf(jj)
+            w0 = z3.Real("weight0!any")
+            ex_.var(st, "weight0").value = w0
+            acc = {}
+            for nme in ("weight_norm", "weighted_form", "weighted_shell", "weighted_radius"):
+                c = ex_.var(st, nme)
+                c.value = z3.Real(nme + "!any")
+                acc[nme] = c.value
+            Rf = z3.Function("result!any", I, R)
+            kp.result.get = lambda jj: Rf(jj)
+            g_entry = st.live()
+            nfacts = len(st.facts)
+            for b in items[i + 1:j]:
+                ex_.exec_stmt(b, st)
+            G, wproj, F2, F1, form, shell, reff = kp.body_spec(lambda m: Lf(m), w0, kp.jq)
+            goals = {
+                "weight_norm": ex_.val(st, "weight_norm") == acc["weight_norm"] + z3.If(G, wproj, 0),
+                "weighted_form": ex_.val(st, "weighted_form") == acc["weighted_form"] + z3.If(G, wproj * form, 0),
+                "weighted_shell": ex_.val(st, "weighted_shell") == acc["weighted_shell"] + z3.If(G, wproj * shell, 0),
+                "weighted_radius": ex_.val(st, "weighted_radius") == acc["weighted_radius"]
+                + z3.If(z3.And(G, kp.mode != 0), wproj * reff, 0),
+            }
+            if kp.nout == 2:
+                contrib = z3.If(kp.jq % 2 == 0, F2, F1)
+            else:
+                contrib = F2
+            goals["result_q"] = kp.result.at(kp.jq) == Rf(kp.jq) + z3.If(G, wproj * contrib, 0)
+            jf = z3.Int("jf")
+            captured["obl"] = [(nme, list(st.facts) + [g_entry], g) for nme, g in goals.items()]
+            captured["obl"].append(("writes_only_q_slots", list(st.facts) + [g_entry, z3.Or(jf < 0, jf >= kp.nout * kp.nq)],
+                                    kp.result.at(jf) == Rf(jf)))
+            Lafter = lv.fields["vector"]
+            captured["obl"].append(("parameter_vector_unchanged", list(st.facts) + [g_entry, jf >= 0, jf < kp.ts.npars],
+                                    Lafter.at(jf) == Lf(jf)))
+            raise _Done()
+        ex.block_hook = block_hook
+
+        def skip_while(ex_, s, st, key):
+            # enter the loop body once without any assumption about the indices
+            g0 = st.guard
+            st.broke.append(z3.BoolVal(False))
+            st.continued.append(z3.BoolVal(False))
+            ex_.exec_stmt(s["inner"][1], st)
+        ex.loop_contracts[(self.fname, "while*")] = skip_while
+        st0 = State()
+        st0.facts = list(self.pre)
+        try:
+            ex.call_function(self.fname, self.args_for_call(), st_outer=st0)
+        except _Done:
+            pass
+        for name, assumptions, goal in ex.obligations:
+            reg.prove(name, assumptions, goal, function=where, engine="cvc", timeout_ms=60000)
+        for nme, assumptions, goal in captured.get("obl", []):
+            reg.prove("%s.kernel.%s.body_contract.%s" % (prop, tag, nme), assumptions, goal,
+                      function=where, engine="cvc", timeout_ms=60000,
+                      nl=nme not in ("writes_only_q_slots", "parameter_vector_unchanged"),
+                      replay=self.replay)
+        if "obl" not in captured:
+            reg.undecided("%s.kernel.%s.body_contract" % (prop, tag), "body not reached", function=where)
+
+    def replay(self, model):
+        from contracts import kernel_replay
+        return kernel_replay.replay(self.model, self.kind)
+
+
+class _Done(Exception):
+    pass
+
+
+def _consts(f):
+    """Uninterpreted constants occurring in a z3 formula."""
+    seen, out, stack = set(), [], [f]
+    while stack:
+        e = stack.pop()
+        if e.get_id() in seen:
+            continue
+        seen.add(e.get_id())
+        if z3.is_quantifier(e):
+            stack.append(e.body())
+            continue
+        if z3.is_app(e):
+            if e.num_args() == 0 and e.decl().kind() == z3.Z3_OP_UNINTERPRETED:
+                out.append(e)
+            stack.extend(e.children())
+    return out
+
+
+def _writes_pairs(s):
+    return True
+
+
+def _has_fn(tu, name):
+    return name in tu.functions
+
+
+def _lit_pi_180(tu):
+    m = re.search(r"#\s*define\s+M_PI_180\s+([0-9.eE+-]+)", tu.source)
+    return m.group(1)
+
+
+# --------------------------------------------------------------------------
+# entry points used by the property checks
+# --------------------------------------------------------------------------
+
+QUICK_KERNELS = [("sphere", "Iq"), ("cylinder", "Iq"), ("cylinder", "Iqxy"), ("parallelepiped", "Iqxy"),
+                 ("lamellar", "Iq"), ("hardsphere", "Iq"), ("fractal", "Iqxy")]
+
+
+def _kernel_job(sub, job):
+    prop, model, kind = job
+    try:
+        KernelProof(sub, prop, model, kind).run()
+    except OutsideSubset as exc:
+        sub.undecided("%s.kernel.%s.%s.engine" % (prop, model, kind), "outside subset: %s" % exc,
+                      function="generated:%s_%s" % (model, kind), engine="cvc")
+
+
+def kernel_contracts(reg, prop, tier, kernels=None):
+    from vp.core import run_parallel
+    kernels = kernels or QUICK_KERNELS
+    run_parallel(reg, _kernel_job, [(prop, m, k) for m, k in kernels])
+    reg.assume("model functions Iq/Fq/Iqac/Iqabc/form_volume/shell_volume/radius_effective are uninterpreted "
+               "functions of the arguments the parameter table prescribes")
+    reg.assume("int32_t arithmetic is mathematical (no overflow obligations); reads of values/q/details "
+               "are not bounds-checked")
 
 
 def orientation_clauses(reg, prop, tier):
-    pass
+    kernel_contracts(reg, prop, tier, [("cylinder", "Iqxy"), ("parallelepiped", "Iqxy"), ("cylinder", "Iq")])
 
 
 def magnetic_clauses(reg, prop, tier):
